@@ -22,6 +22,9 @@ Judge(e) ==
   ELSE IF e.first_ebb3 # fb THEN "first.ebb3"
   ELSE IF Sq(e.list_legacy) # li THEN "listing.legacy"
   ELSE IF Sq(e.list_ebb3) # li THEN "listing.ebb3"
+  \* the names the two layers report for the listed boards: one per listed board, and the same in both layers (SNR= is the legacy layer's extra)
+  ELSE IF li # <<>> /\ (Len(e.names[1]) # Len(li) \/ Len(e.names[2]) # Len(li)) THEN "names.one_per_listed_board"
+  ELSE IF agree /\ \E k \in 1..Len(e.names[1]) : Sq(e.names[1][k]) # Sq(e.names[2][k]) THEN "layers.names_agree"
   ELSE JudgeLookups(ps, e.lookups, 1, agree)
 \* how far the real matchers are from the transcription (reported as DRIFT, never a verdict)
 Drift(e) == LET ps == Ports(e) IN
